@@ -19,6 +19,18 @@ pub fn out_root() -> PathBuf {
     PathBuf::from(std::env::var("VERIF_OUT").unwrap_or_else(|_| VERIF_ROOT.to_string()))
 }
 
+static REPLAY_MODE: std::sync::atomic::AtomicBool = std::sync::atomic::AtomicBool::new(false);
+
+/// In replay mode (`--replay`) a run re-executes one recorded case: it prints its verdict but never
+/// rewrites evidence or replay files.
+pub fn set_replay_mode() {
+    REPLAY_MODE.store(true, std::sync::atomic::Ordering::Relaxed);
+}
+
+pub fn replay_mode() -> bool {
+    REPLAY_MODE.load(std::sync::atomic::Ordering::Relaxed)
+}
+
 #[derive(Clone, Copy, PartialEq, Eq, Debug)]
 pub enum Tier {
     Quick,
@@ -236,6 +248,16 @@ impl Run {
                 "KNOWN-FINDING: property={} {} [{}; {} case(s) this run]",
                 self.prop, what, id, n
             );
+        }
+
+        if replay_mode() {
+            for v in &new_viol {
+                println!("VIOLATION property={} replay=(replayed case)", self.prop);
+                println!("  key: {}", v.key);
+                println!("  what: {}", v.what);
+            }
+            println!("{} replay: {} violation(s), {} known-finding case(s)", self.prop, new_viol.len(), g.violations.len() - new_viol.len());
+            return if new_viol.is_empty() { 0 } else { 1 };
         }
 
         // replays
